@@ -13,7 +13,7 @@ CONSTANTS
   PrefTexts = {"tp"}
   PrefClass = "RangeError"
   PrefRest = "t1"
-  Stamps = {0, 5, 999}
+  Stamps = {5, 999}
   MaxNow = 2
   Shapes = {"ok", "short", "nodata"}
   LevelKinds = {"node", "module", "param"}
